@@ -303,6 +303,11 @@ def instances(tier, seed):
                 # literal operands: a sign-like operator directly before a number must still be the binary operator in every layout
                 for lits in ({"1": 2}, {"2": 3}, {"0": 5, "2": 2}, {"1": 3, "2": 7}):
                     out.append(dict(ops=list(pair), type=t, parens=None, lits=lits, layouts=True))
+                # signed constants as operands (`a / -2 * b`): the sign belongs to the constant, the grouping of the operators is unchanged
+                for lits in ({"1": -2}, {"2": -3}, {"0": -5}, {"1": -3, "2": -7}):
+                    if "%" in pair:
+                        continue            # the reference semantics define % on non-negative operands only
+                    out.append(dict(ops=list(pair), type=t, parens=None, lits=lits))
     # Float64: pairs of one level whose groupings agree over the reals, operands variables or literal constants
     fp_pairs = [("+", "+"), ("+", "-")] + ([("*", "*"), ("*", "/")] if tier == "thorough" else [])
     for pair in fp_pairs:
